@@ -16,6 +16,7 @@ import (
 	"bytes"
 	"fmt"
 	"strings"
+	"testing"
 
 	"github.com/cloudflare/circl/zz_verif/vlib"
 	"pgregory.net/rapid"
@@ -356,4 +357,135 @@ func sortedKinds(m map[string]*kind) []*kind {
 		out = append(out, m[k])
 	}
 	return out
+}
+
+// decodeSweep is the deterministic companion of run: for every kind, the encoding of every
+// constructor value (the identity, the generator, …) is decoded into a USED object (every other
+// constructor value, also after one mutating call), and then every operation is applied once with
+// that object in every operand position; results and observations must equal those obtained with a
+// freshly decoded object. (A decoder that leaves part of the previous value behind shows only in a
+// later operation, and only for particular encodings such as the identity.)
+func (m *machine) decodeSweep(t *testing.T) {
+	sub := "seq/" + m.name + "/decode-sweep"
+	for _, k := range sortedKinds(m.kinds) {
+		ctorNames := sortedKeys(k.ctors)
+		for _, srcName := range ctorNames {
+			srcEnc := append([]byte{}, k.enc(k.ctors[srcName]())...)
+			for _, usedName := range ctorNames {
+				for _, pre := range []string{"", "after-op"} {
+					mkUsed := func() any {
+						u := k.ctors[usedName]()
+						if pre != "" {
+							// one in-place mutating operation on the used object first (the first op that takes only this kind)
+							for _, o := range m.ops {
+								if o.recv == k.name && o.usesRecv && len(o.args) <= 1 && o.nints == 0 && (len(o.args) == 0 || o.args[0] == k.name) {
+									var args []any
+									if len(o.args) == 1 {
+										args = []any{k.ctors[ctorNames[0]]()}
+									}
+									if p, _ := vlib.Catch(func() { o.apply(u, args, nil) }); p != nil {
+										return k.ctors[usedName]()
+									}
+									break
+								}
+							}
+						}
+						return u
+					}
+					for oi := range m.ops {
+						o := &m.ops[oi]
+						if o.nints > 0 {
+							continue
+						}
+						// operand positions of this kind: -1 = receiver
+						var positions []int
+						if o.recv == k.name {
+							positions = append(positions, -1)
+						}
+						for ai, an := range o.args {
+							if an == k.name {
+								positions = append(positions, ai)
+							}
+						}
+						for _, pos := range positions {
+							build := func(x any) (any, []any) {
+								var recv any
+								if o.recv != "" {
+									rk := m.kinds[o.recv]
+									recv = rk.ctors[sortedKeys(rk.ctors)[0]]()
+								}
+								args := make([]any, len(o.args))
+								for ai, an := range o.args {
+									ak := m.kinds[an]
+									args[ai] = ak.ctors[sortedKeys(ak.ctors)[0]]()
+								}
+								if pos == -1 {
+									recv = x
+								} else {
+									args[pos] = x
+								}
+								return recv, args
+							}
+							used := mkUsed()
+							fresh := k.fresh()
+							if err := k.dec(used, append([]byte{}, srcEnc...)); err != nil {
+								continue
+							}
+							if err := k.dec(fresh, append([]byte{}, srcEnc...)); err != nil {
+								continue
+							}
+							if o.guard != nil {
+								r0, a0 := build(fresh)
+								var rm []byte
+								if r0 != nil {
+									rm = m.kinds[o.recv].enc(r0)
+								}
+								ams := make([][]byte, len(a0))
+								for i := range a0 {
+									ams[i] = m.kinds[o.args[i]].enc(a0[i])
+								}
+								if !o.guard(rm, ams, nil) {
+									continue
+								}
+							}
+							vlib.Eval(sub)
+							obs := func(x any) (string, bool) {
+								recv, args := build(x)
+								var res any
+								var ob string
+								if p, _ := vlib.Catch(func() { res, ob = o.apply(recv, args, nil) }); p != nil {
+									return fmt.Sprintf("panic:%v", p), false
+								}
+								out := ob
+								if res != nil {
+									rk := o.recv
+									if res != recv {
+										rk = o.resKind
+									}
+									if rk != "" {
+										out += fmt.Sprintf("|%x", m.kinds[rk].enc(res))
+									}
+								}
+								// the operand itself afterwards
+								out += fmt.Sprintf("|self=%x", k.enc(x))
+								return out, true
+							}
+							want, _ := obs(fresh)
+							got, _ := obs(used)
+							desc := fmt.Sprintf("%s: decode %s() into a used object (%s()%s), then %s with it as operand %d", k.name, srcName, usedName, pre, o.name, pos)
+							if got != want {
+								vlib.ReportDirect(t, "C11/seq/"+m.name+"/decode-into-used-then-"+o.name, fmt.Sprintf("%s: result %.160s, with a freshly decoded object %.160s", desc, got, want),
+									map[string]interface{}{"machine": m.name, "kind": k.name, "decoded": srcName, "used": usedName + pre, "op": o.name, "position": pos})
+								continue
+							}
+							vlib.NonTrivial(sub, "", []byte(desc))
+							if oi == 0 && pos == positions[0] {
+								vlib.Sample(sub, k.name, desc+" → same as fresh")
+							}
+						}
+					}
+				}
+			}
+		}
+	}
 }
